@@ -180,10 +180,206 @@ def gen_splits(rng, ns, g, hist):
     return st
 
 
+NONDYADIC_HOPS = [0.1, 0.1, 0.2, 0.3, 0.7, 1 / 3, 2 / 3, 0.05, 0.01, 1.1, 0.15, 0.6, 0.35, 0.9, 1.7, 0.025, 1e-3, 0.12]
+
+
+def hop_multiple(rng, k, h):
+    """one of the doubles a program may hold for "k * h": the single product, numpy.arange's h + (k-1)*h,
+    the running sum h + h + ... + h, the decimal literal, and (rarely) one ulp beside them"""
+    m = rng.random()
+    if m < 0.4:
+        x = k * h
+    elif m < 0.65:
+        x = h + (k - 1) * h
+    elif m < 0.8:
+        x = 0.0
+        for _ in range(k):
+            x += h
+    else:
+        x = round(k * h, 9)
+    if rng.random() < 0.12:
+        x = nswire.nextafter_n(x, rng.choice([-1, 1]))
+    return x
+
+
+def gen_long_hop(rng):
+    """split_note_sequence with a NON-DYADIC float hop and 8-200 hops: total_time exactly on / one ulp around a
+    hop multiple, notes starting / ending exactly on hop multiples (back-to-back chains meeting on a multiple),
+    state events and beats on multiples, mostly skip_splits_inside_notes=True.  After a handful of hops the
+    doubles h + i*h, (i+1)*h and h+h+...+h differ in the last bits, which is what this stream is about."""
+    from note_seq.protobuf import music_pb2
+    hist = {'hop:long-nondyadic'}
+    k = rng.random()
+    if k < 0.7:
+        h = rng.choice(NONDYADIC_HOPS)
+    elif k < 0.85:
+        h = round(rng.uniform(0.01, 2.0), rng.choice([1, 2, 3])) or 0.1
+    else:
+        h = rng.uniform(0.01, 2.0)
+    n = rng.choice([8, 9, 10, 11, 12, 16, 20, 25, 33, 40, 50, 64, 100, 150, 200])
+    hist.add('hops:%s' % ('8-16' if n <= 16 else '17-64' if n <= 64 else '65-200'))
+    ns = music_pb2.NoteSequence()
+    ns.ticks_per_quarter = 220
+    m = rng.random()
+    if m < 0.55:
+        T = hop_multiple(rng, n, h)
+        hist.add('total:on-hop-multiple')
+    elif m < 0.8:
+        T = nswire.nextafter_n(hop_multiple(rng, n, h), rng.choice([-2, -1, 1, 2]))
+        hist.add('total:ulps-off-hop-multiple')
+    else:
+        T = rng.uniform((n - 1) * h, n * h)
+        hist.add('total:between-multiples')
+    shape = rng.choice(['chain', 'chain', 'on-multiples', 'on-multiples', 'sparse', 'none'])
+    hist.add('notes:' + shape)
+    if shape == 'chain':
+        # back-to-back notes meeting exactly on hop multiples; both notes of a junction share the same double
+        k0 = rng.randrange(0, 3)
+        cuts = [0.0 if k0 == 0 else hop_multiple(rng, k0, h)]
+        kk = k0
+        while kk < n:
+            kk += rng.choice([1, 1, 2, 3, 5, 10, 25])
+            if kk > n:
+                break
+            cuts.append(hop_multiple(rng, kk, h))
+        for a, b in zip(cuts, cuts[1:]):
+            if a <= b:
+                ns.notes.add(pitch=rng.randrange(40, 90), velocity=90, start_time=a, end_time=b,
+                             instrument=rng.randrange(2))
+    elif shape in ('on-multiples', 'sparse'):
+        for _ in range(rng.choice([1, 2, 3, 6, 12]) if shape == 'on-multiples' else rng.choice([1, 2])):
+            k1 = rng.randrange(0, n)
+            k2 = min(n, k1 + rng.choice([1, 1, 2, 3, 10]))
+            a = 0.0 if k1 == 0 else hop_multiple(rng, k1, h)
+            b = hop_multiple(rng, k2, h)
+            if rng.random() < 0.2:
+                a = rng.uniform(0, T)
+            if rng.random() < 0.2:
+                b = rng.uniform(a, max(a, T))
+            if a > b:
+                a, b = b, a
+            ns.notes.add(pitch=rng.randrange(40, 90), velocity=rng.randrange(1, 128), start_time=a, end_time=b,
+                         instrument=rng.randrange(2), program=rng.choice([0, 5]))
+    for _ in range(rng.choice([0, 0, 1, 3])):
+        t = hop_multiple(rng, rng.randrange(1, n + 1), h) if rng.random() < 0.8 else rng.uniform(0, T)
+        q = rng.randrange(4)
+        if q == 0:
+            ns.tempos.add(time=t, qpm=rng.choice([60.0, 90.5, 120.0]))
+        elif q == 1:
+            ns.control_changes.add(time=t, control_number=64, control_value=rng.choice([0, 127]), instrument=rng.randrange(2))
+        elif q == 2:
+            ta = ns.text_annotations.add()
+            ta.time, ta.annotation_type, ta.text = t, BEAT, ''
+        else:
+            ta = ns.text_annotations.add()
+            ta.time, ta.annotation_type, ta.text = t, CH, rng.choice(['C', 'G7'])
+    ns.total_time = T
+    return ns, {'op': 'hop', 'hop': h, 'skip': rng.random() < 0.65}, hist
+
+
+def gen_long_case(rng):
+    """long inputs: 30-120 notes, dozens of state events and 10-40 split times (the short stream never has
+    more than 12 notes / 7 cuts, so a carried index or a list that is consumed can go wrong unnoticed)."""
+    hist = {'long'}
+    g = nswire.NSGen(rng, max_notes=rng.choice([30, 60, 120]), pool_size=rng.choice([12, 25, 40]),
+                     max_time=rng.choice([8.0, 30.0]), instruments=3, dyadic=rng.random() < 0.4)
+    ns = g.make(sub=False)
+    for _ in range(rng.choice([5, 15, 40])):
+        q = rng.randrange(5)
+        t = g.t()
+        if q == 0:
+            ns.tempos.add(time=t, qpm=rng.choice([120.0, 60.0, 90.5]))
+        elif q == 1:
+            ns.time_signatures.add(time=t, numerator=rng.choice([4, 3, 6]), denominator=rng.choice([4, 8]))
+        elif q == 2:
+            ns.key_signatures.add(time=t, key=rng.randrange(12))
+        elif q == 3:
+            ns.control_changes.add(time=t, control_number=rng.choice([64, 66, 67]), control_value=rng.choice([0, 127]),
+                                   instrument=rng.randrange(3))
+        else:
+            ta = ns.text_annotations.add()
+            ta.time, ta.annotation_type, ta.text = t, rng.choice([CH, BEAT]), rng.choice(['C', 'G7', 'Dm'])
+    ts = interesting_times(ns, g)
+    ns.total_time = max(ts) + rng.choice([0.0, 0.5])
+    op = rng.choice(['ext', 'ext', 'hoplist', 'hop', 'tc', 'sil'])
+    c = {'op': op}
+    if op == 'ext':
+        inside = [t for t in ts if t < ns.total_time] or [0.0]
+        st = sorted(rng.choice(inside) for _ in range(rng.choice([10, 20, 40])))
+        st.append(rng.choice([ns.total_time, ns.total_time + 1.0, st[-1]]))
+        if rng.random() < 0.5:
+            st[0] = 0.0
+        c['splits'], c['preserve'] = st, None
+    elif op == 'hoplist':
+        c['skip'] = rng.random() < 0.5
+        c['hops'] = [t for t in (rng.choice(ts) for _ in range(rng.choice([10, 25]))) if 0 < t < ns.total_time]
+    elif op == 'hop':
+        c['skip'] = rng.random() < 0.5
+        c['hop'] = rng.choice([0.125, 0.25, 0.1, 0.3, 0.7, 1 / 3, ns.total_time / rng.choice([16, 50])])
+    elif op == 'tc':
+        c['skip'] = rng.random() < 0.5
+    else:
+        c['gap'] = rng.choice([0.0, 0.125, 0.1, 0.25])
+    return ns, c, hist
+
+
+def gen_silence_case(rng, ns, hist):
+    """split_note_sequence_on_silence decides with `start > last_active_time + gap_seconds` (a float sum): onsets exactly
+    on that sum, one ulp around it and on the decimal literal beside it, for decimal and dyadic gaps, 2-20 notes."""
+    gap = rng.choice([0.1, 0.2, 0.3, 0.7, 1 / 3, 0.05, 1.1, 0.125, 0.5, 1.0, rng.uniform(0, 2)])
+    del ns.notes[:]
+    last = 0.0
+    notes = []
+    for _ in range(rng.choice([2, 3, 5, 8, 20])):
+        m = rng.random()
+        if m < 0.3:
+            start = last + gap
+        elif m < 0.5:
+            start = nswire.nextafter_n(last + gap, rng.choice([-1, 1]))
+        elif m < 0.6:
+            start = round(last + gap, 6)
+        elif m < 0.8:
+            start = last + gap * rng.choice([0.5, 1.5, 2.0])
+        else:
+            start = rng.uniform(0, last + 2 * gap + 1)
+        start = max(start, 0.0)
+        end = start + rng.choice([0.0, 0.1, 0.25, 0.5, rng.uniform(0, 1)])
+        notes.append((start, end))
+        last = max(last, end)
+    if rng.random() < 0.3:
+        rng.shuffle(notes)
+    for a, b in notes:
+        ns.notes.add(pitch=rng.randrange(30, 100), velocity=rng.randrange(1, 128), start_time=a, end_time=b,
+                     instrument=rng.randrange(3))
+    ns.total_time = last if rng.random() < 0.7 else last + 0.5
+    ns.ClearField('quantization_info')
+    hist.add('sil:onset-on-last+gap')
+    return ns, {'op': 'sil', 'gap': gap}, hist
+
+
+def near_value(rng, x):
+    """a double nearly equal to x: 1-3 ulps or 1e-12 .. 1e-6 (relative) away"""
+    if rng.random() < 0.5:
+        return nswire.nextafter_n(x, rng.choice([-3, -2, -1, 1, 2, 3]))
+    y = x * (1 + rng.choice([-1, 1]) * rng.choice([1e-12, 1e-10, 1e-9, 1e-8, 1e-6]))
+    return y if y != x else nswire.nextafter_n(x, 1)
+
+
 def gen_case(rng):
     hist = set()
     ns, g = gen_seq(rng, hist)
     op = rng.choice(['ext', 'ext', 'ext', 'sub', 'trim', 'hoplist', 'hop', 'hop', 'tc', 'sil'])
+    if op == 'tc' and rng.random() < 0.5:
+        # "genuine change" is an equality test on qpm / (numerator, denominator): nearly equal tempos, tempos nearly
+        # equal to the default 120, signatures that differ only in one component or are ratio-equal
+        for _ in range(rng.choice([1, 2, 3])):
+            base = rng.choice([120.0, 120.0, 60.0, 90.5] + [t.qpm for t in ns.tempos])
+            ns.tempos.add(time=g.t(), qpm=rng.choice([base, near_value(rng, base), near_value(rng, base)]))
+        if rng.random() < 0.5:
+            ns.time_signatures.add(time=g.t(), numerator=rng.choice([4, 2, 8, 3, 6]), denominator=rng.choice([4, 2, 8]))
+        hist.add('tc:nearly-equal-tempos')
+    if op == 'sil' and rng.random() < 0.5 and len(ns.notes):
+        return gen_silence_case(rng, ns, hist)
     ts = interesting_times(ns, g)
     c = {'op': op}
     if op == 'ext':
@@ -215,8 +411,12 @@ def gen_case(rng):
             h = T / rng.choice([1, 2, 3, 4, 5, 7])           # divides total_time (up to rounding)
             hist.add('hop:divides-total')
         elif k < 0.7:
-            h = rng.choice([0.1, 0.2, 0.3, 0.7, 1.1])
+            h = rng.choice([0.1, 0.2, 0.3, 0.7, 1.1, 0.6, 1 / 3, 0.15])
             hist.add('hop:decimal')
+            if T > 0 and rng.random() < 0.5:
+                # total_time exactly on / one ulp around a multiple of the decimal hop (8-63 hops)
+                T = ns.total_time = nswire.nextafter_n(rng.randrange(8, 64) * h, rng.choice([-1, 0, 0, 1]))
+                hist.add('hop:decimal-total-on-multiple')
         elif k < 0.9:
             h = rng.uniform(0.15, 3.0)
             hist.add('hop:arbitrary')
@@ -390,6 +590,11 @@ def check_pieces(ns, splits, pieces, preserve):
     return None
 
 
+def is_double(x):
+    """the rational x is a binary64 value"""
+    return F(float(x)) == x
+
+
 def crossing(ns, t):
     return any(F(n.start_time) < t < F(n.end_time) for n in ns.notes)
 
@@ -410,10 +615,16 @@ def expected_split_vector(ns, c):
             cands.append(k * h)
             k += 1
         # unambiguous only: total_time must not sit within rounding of a hop multiple, and with
-        # skip_splits_inside_notes no note boundary within rounding of a candidate
-        if any(0 < abs(m * h - T) <= EPS * max(T, 1) for m in (k - 1, k)) and not c.get('exact_hop'):
+        # skip_splits_inside_notes no note boundary within rounding of a candidate.  An EXACT coincidence is decided
+        # only when the double the code can hold for the multiple is the multiple itself: (m-1)*h and m*h both doubles
+        # (then h + (m-1)*h and (total - h) / h are exact).  Otherwise the double beside a representable 14*h can be
+        # h + 13*h = 14*h - 1ulp, and a note ending exactly on 14*h is "still sounding" there.
+        def exact(m):
+            return is_double((m - 1) * h) and is_double(m * h)
+        if any(abs(m * h - T) <= EPS * max(T, 1) and not (m * h == T and exact(m)) for m in (k - 1, k)):
             return None, True
-        if c['skip'] and any(0 < abs(F(x) - t) <= EPS * max(t, 1) for t in cands for n in ns.notes for x in (n.start_time, n.end_time)):
+        if c['skip'] and any(abs(F(x) - t) <= EPS * max(t, 1) and not (F(x) == t and exact(i + 1))
+                             for i, t in enumerate(cands) for n in ns.notes for x in (n.start_time, n.end_time)):
             return None, True
         exp = [F(0)] + [t for t in cands if not (c['skip'] and crossing(ns, t))]
     elif op == 'tc':
@@ -444,11 +655,83 @@ def expected_split_vector(ns, c):
     return exp, op == 'hop'
 
 
+HOP_TOL = F(1, 2**51)
+
+
+def check_hop_points(ns, c, starts):
+    """"split points are exactly the hop multiples (never inside a sounding note when skip_splits_inside_notes is set)",
+    read for doubles: a hop multiple k*h held in a double after at most two roundings is within 2^-51 (relative) of the
+    real k*h.  Every piece start must be such a multiple, with increasing k and not past total_time; every multiple
+    clearly before total_time must be a split point unless (skip) a note may sound across it; no split point lies
+    clearly inside a sounding note.  Whatever depends on the last bits (a note boundary or total_time within 2^-51 of
+    the multiple) is left undecided here - the bit-exact correspondence decides it."""
+    h, T = F(c['hop']), F(ns.total_time)
+    if not starts:
+        return None
+    if F(starts[0]) != 0:
+        return 'the first piece starts at %r, not at 0' % starts[0]
+    ks = []
+    for s in starts[1:]:
+        k = max(1, round(F(s) / h))
+        if abs(F(s) - k * h) > HOP_TOL * k * h:
+            return 'split point %r is not a hop multiple: nearest is %d * %r = %r (off by %.3g relative)' % (
+                s, k, c['hop'], float(k * h), float(abs(F(s) - k * h) / (k * h)))
+        if F(s) > T * (1 + HOP_TOL):
+            return 'split point %r lies after total_time %r' % (s, ns.total_time)
+        ks.append(k)
+    if any(x >= y for x, y in zip(ks, ks[1:])):
+        return 'hop multiples repeated / out of order in the split points %r' % (starts,)
+    if T / h > 100000:
+        return None
+    have = set(ks)
+    spans = [(F(n.start_time), F(n.end_time)) for n in ns.notes]
+    k = 1
+    while k * h < T * (1 - 2 * HOP_TOL):
+        m = k * h
+        lo, hi = m * (1 - HOP_TOL), m * (1 + HOP_TOL)
+        if k not in have and not (c['skip'] and any(a < hi and b > lo for a, b in spans)):
+            return 'no split at the hop multiple %d * %r = %r (total_time %r, no note sounds across it)' % (
+                k, c['hop'], float(m), ns.total_time)
+        if k in have and c['skip'] and any(a < lo and b > hi for a, b in spans):
+            return 'split at %r inside a sounding note although skip_splits_inside_notes is set' % float(m)
+        k += 1
+    return None
+
+
+class ImplStuck(Exception):
+    """the implementation did not return (time / memory guard of `guarded`)"""
+
+
+def guarded(f, *a, limit=30.0, mem_mb=1500):
+    """run f(*a) under an interval timer: raise ImplStuck inside it when it has run for `limit` seconds or the process
+    has grown by `mem_mb` (a changed loop that never terminates must not take the machine down with it)."""
+    import resource
+    import signal
+    import time
+    t0, rss0 = time.time(), resource.getrusage(resource.RUSAGE_SELF).ru_maxrss
+
+    def on_tick(sig, frame):
+        if time.time() - t0 > limit or resource.getrusage(resource.RUSAGE_SELF).ru_maxrss - rss0 > mem_mb * 1024:
+            raise ImplStuck('no result after %.1fs / memory growth' % (time.time() - t0))
+    old = signal.signal(signal.SIGALRM, on_tick)
+    signal.setitimer(signal.ITIMER_REAL, 0.1, 0.1)
+    try:
+        return f(*a)
+    finally:
+        signal.setitimer(signal.ITIMER_REAL, 0)
+        signal.signal(signal.SIGALRM, old)
+
+
+def case_limit(c):
+    """seconds an implementation call may take (cases outside the quantifier get very little)"""
+    return 0.5 if c['op'] == 'hop' and c['hop'] <= 0 else 30.0
+
+
 def oracle_case(sl, ns, c):
     """evaluate the property statement on the real code for one case; returns what fails or None."""
     before = ns.SerializeToString(deterministic=True)
     try:
-        out, err = call_impl(sl, ns, c), None
+        out, err = guarded(call_impl, sl, ns, c, limit=case_limit(c)), None
     except Exception as e:  # pylint: disable=broad-except
         out, err = None, e
     if ns.SerializeToString(deterministic=True) != before:
@@ -489,6 +772,12 @@ def oracle_case(sl, ns, c):
     # ---- the split family
     if op == 'hop' and F(c['hop']) == 0:
         return None   # outside the quantifier (hop sizes are positive); ZeroDivisionError from numpy.arange
+    if op == 'hop' and F(c['hop']) > 0 and not quant:
+        if err is not None:
+            return 'unexpected %s for a positive hop size' % ename
+        r = check_hop_points(ns, c, [p.subsequence_info.start_time_offset for p in out])
+        if r:
+            return r
     exp, fuzzy = expected_split_vector(ns, c)
     if exp is None:
         if op == 'hop' and F(c['hop']) < 0:
@@ -646,6 +935,10 @@ def run(chk):
                 'events coincide with split times, note starts/ends, each other and total_time; operations: _extract_subsequences '
                 '(sorted / unsorted / duplicate / past-the-end split vectors, optional preserve list), extract_subsequence, '
                 'trim_note_sequence, split_note_sequence (list and float hop), ..._on_time_changes, ..._on_silence; '
+                'a long stream: non-dyadic float hops (0.1, 0.2, 0.3, 0.7, 1/3, ...) with 8-200 hops, total_time exactly on / 1-2 ulps '
+                'around a hop multiple, note chains meeting exactly on hop multiples (each multiple as k*h, h+(k-1)*h, the running sum '
+                'or the decimal literal), mostly skip_splits_inside_notes; 30-120-note sequences with 10-40 cuts; nearly equal tempos '
+                '(1-3 ulps / 1e-12..1e-6 relative) for the genuine-change test; onsets exactly on / one ulp around last_active+gap; '
                 'non-trivial = distinct request whose result is a value or a documented error')
     rng = chk.subrng('corr')
     cases = [(ns, c, {'directed'}) for ns, c in directed_cases()]
@@ -654,11 +947,23 @@ def run(chk):
         cases.append((ns, c, {'corpus'}))
     for _ in range(chk.n(6000, 120000)):
         cases.append(gen_case(rng))
+    rl = chk.subrng('long')
+    for _ in range(chk.n(260, 5000)):
+        cases.append(gen_long_hop(rl))
+    for _ in range(chk.n(120, 2500)):
+        cases.append(gen_long_case(rl))
     reqs = [request_line(ns, c) for ns, c, _ in cases]
     impl = []
-    for ns, c, _ in cases:
+    stuck = set()
+    for i, (ns, c, _) in enumerate(cases):
         before = ns.SerializeToString(deterministic=True)
-        impl.append(nswire.result_line(call_impl, sl, ns, c))
+        if len(stuck) >= 4 and case_limit(c) < 1:
+            impl.append('err ImplStuck')   # it hung on four such inputs already: do not wait for the rest
+            stuck.add(i)
+            continue
+        impl.append(nswire.result_line(guarded, call_impl, sl, ns, c, limit=case_limit(c)))
+        if impl[-1] == 'err ImplStuck':
+            stuck.add(i)
         if ns.SerializeToString(deterministic=True) != before:
             chk.fail('input modified', case_obj(ns, c))
     # numpy.arange model on its own: hop sizes / totals around exact multiples
@@ -668,7 +973,8 @@ def run(chk):
         k = rng.random()
         h = rng.uniform(0.01, 3) if k < 0.3 else round(rng.uniform(0.01, 3), 2) if k < 0.6 else rng.randrange(1, 40) / rng.choice([8, 10, 3, 7, 100])
         m = rng.random()
-        total = h * rng.randrange(0, 50) if m < 0.5 else nswire.nextafter_n(h * rng.randrange(0, 50), rng.choice([-2, -1, 1, 2])) if m < 0.7 else rng.uniform(0, 20)
+        nh = rng.randrange(0, 50) if rng.random() < 0.7 else rng.randrange(50, 400)
+        total = h * nh if m < 0.5 else nswire.nextafter_n(h * nh, rng.choice([-2, -1, 1, 2])) if m < 0.7 else rng.uniform(0, 20)
         ar.append(('arange %s %s' % (rat(h), rat(total)), 'ok ' + wl(rat(float(x)) for x in np.arange(h, total, h))))
     model = chk.driver(EXE, reqs + [a for a, _ in ar])
     for (ns, c, hist), req, a, b in zip(cases, reqs, impl, model):
@@ -682,7 +988,10 @@ def run(chk):
     chk.sample({'request': reqs[0][:400] + ' …', 'impl': impl[0][:300] + ' …', 'model_equal': impl[0] == model[0]})
     chk.sample({'request': reqs[-1][:400] + ' …', 'impl': impl[-1][:300] + ' …', 'model_equal': impl[-1] == model[-1]})
     # oracle on the implementation (independent of the model)
-    for ns, c, _ in cases:
+    for i, (ns, c, _) in enumerate(cases):
+        if i in stuck and case_limit(c) < 1:
+            chk.count('oracle', None, hist='not-run (implementation did not return; input outside the quantifier)')
+            continue
         r = oracle_case(sl, ns, c)
         chk.count('oracle', None, hist='fails' if r else 'holds')
         if r:
